@@ -42,6 +42,7 @@ LEVEL = {
                    "of the user's context managers themselves.",
     "technique": "static analysis: finite-domain abstract evaluation of the unwind loop against a reference table",
 }
+LEVEL["decided"] += ' The unwind table distinguishes exits that fail when *called* (synchronous exits wrapped for awaiting) from exits that fail when awaited: 312 scenarios.'
 
 STACK_ATTR = "_exit_callbacks"  # re-derived from ExitStack.__init__ on every run (_derive_stack_attr)
 
